@@ -82,7 +82,7 @@ fn join(morphs: &[String], st: &Style) -> String {
     } else if st.split_after_tausend || st.split_after_hundert {
         // a space after `hundert` only in the last group: a glued word never spans `tausend` when the multiplier of
         // `tausend` itself was split (such a spelling is not a compound/split variant of anything)
-        let last_tausend = morphs.iter().rposition(|m| m == "tausend");
+        let last_tausend = morphs.iter().rposition(|m| m.starts_with("tausend"));
         let mut s = String::new();
         for (i, m) in morphs.iter().enumerate() {
             s.push_str(m);
@@ -170,7 +170,12 @@ pub fn ordinal_base(n: u64, st: &Style) -> String {
 
 pub fn ordinals(n: u64) -> Vec<SpelledOrd> {
     let mut v = Vec::new();
-    for (st, name) in [(Style::default(), "primary"), (Style { split: true, ..Style::default() }, "fully-split")] {
+    for (st, name) in [
+        (Style::default(), "primary"),
+        (Style { split: true, ..Style::default() }, "fully-split"),
+        (Style { drop_ein: true, ..Style::default() }, "ein-dropped"),
+        (Style { split_after_tausend: true, split_after_hundert: true, ..Style::default() }, "split-after-tausend-and-hundert"),
+    ] {
         let b = ordinal_base(n, &st);
         for (suf, infl) in [("", "-e"), ("r", "-er"), ("s", "-es"), ("n", "-en"), ("m", "-em")] {
             v.push(SpelledOrd { text: format!("{}{}", b, suf), marker: ".", inflection: infl, variant: name });
